@@ -391,6 +391,14 @@ fn run_hist(case: &Value) -> CaseResult {
         let (len, edns) = (HIST_LENS[*e % 3], *e < 3);
         for k in 0..HIST_K {
             qn += 1;
+            // every second query comes from a socket of its own (a new source port on the same
+            // address): the bound is per source ADDRESS
+            if qn % 2 == 0 {
+                c = match UdpClient::new("127.0.0.2".parse().unwrap()) {
+                    Ok(c) => c,
+                    Err(e) => return CaseResult::machinery(e),
+                };
+            }
             let before = c.rx.len();
             let q = sized_query(qn, &long_name(&format!("h{qn}.example"), len), edns);
             let _ = c.send(dst, &q);
@@ -675,7 +683,7 @@ pub fn run(tier: &str, replay: Option<Value>) -> ! {
     rep.cov("traces_validated_against_impl", n + agg.executions);
     rep.cov("evaluations", n + agg.executions);
     rep.cov("distinct_nontrivial", classes + agg.classes.len() as u64);
-    rep.cov("rule", "limiter: every history of length <= 6 (thorough 8) over {arrival with cost min, min+100, capacity, capacity+1; advance 1, 10, P-1, P, P+1, 2P s} (P = capacity/rate, read from the code) executed on a fresh real IpRateLimiter under the virtual clock; states = distinct grant/deny patterns. live: every arrival/advance history of length <= 3 (thorough 4) over {burst of 6 queries with name length short/120/240 x EDNS yes/no; advance 1, 100, P+1 s} on a fresh real service, REFUSED datagrams counted and sized at the client, every window judged in octets; 3 long volume patterns; and the full cookie matrix (client cookie x source x server address x 0/1/2 key rotations x cookie length) on the real service; forged cookies (server part computed by the client under the all-zero / all-ones key) after 0/1 traffic-driven rotations and 0..200 h of silence");
+    rep.cov("rule", "limiter: every history of length <= 6 (thorough 8) over {arrival with cost min, min+100, capacity, capacity+1; advance 1, 10, P-1, P, P+1, 2P s} (P = capacity/rate, read from the code) executed on a fresh real IpRateLimiter under the virtual clock; states = distinct grant/deny patterns. live: every arrival/advance history of length <= 3 (thorough 4) over {burst of 6 queries with name length short/120/240 x EDNS yes/no; advance 1, 100, P+1 s} on a fresh real service, REFUSED datagrams counted and sized at the client (every second query from a new source port on the same address), every window judged in octets; 3 long volume patterns; and the full cookie matrix (client cookie x source x server address x 0/1/2 key rotations x cookie length) on the real service; forged cookies (server part computed by the client under the all-zero / all-ones key) after 0/1 traffic-driven rotations and 0..200 h of silence");
     rep.cov("exhaustive", true);
     rep.cov("live_executions", agg.executions);
     rep.cov("live_classes", json!(agg.classes));
